@@ -1,0 +1,59 @@
+package markdown
+
+import (
+	"github.com/yuin/goldmark"
+	"github.com/yuin/goldmark/ast"
+	"github.com/yuin/goldmark/parser"
+	"github.com/yuin/goldmark/renderer"
+	"github.com/yuin/goldmark/text"
+	"github.com/yuin/goldmark/util"
+
+	mathjax "github.com/litao91/goldmark-mathjax"
+)
+
+// safeMathJax registers exactly what the goldmark-mathjax extension registers (same parsers,
+// renderers and priorities), except that the block parser is wrapped so that it cannot panic.
+//
+// The upstream block parser keeps the state of "the" open $$ block under a single parser
+// context key: Open stores it, Continue reads it with an unchecked type assertion and Close
+// clears it. goldmark opens the blocks that start on a line before it closes the blocks which
+// that line ended. When a $$ line both ends the reach of an open formula and starts a new one
+// (the line directly after a closing $$, or a line leaving the quote / list item that holds an
+// unclosed formula), the fresh state is wiped by the old block's Close and the next line panics
+// with "interface conversion: interface {} is nil, not *mathjax.mathBlockData". Shortest
+// everyday input: two display formulas without a blank line between them,
+//
+//	$$
+//	a
+//	$$
+//	$$
+//	b
+//	$$
+//
+// A math block has no children, so at most one is open at any time and every Continue follows
+// the Open of that same block: the state never needs clearing, and the wrapper's Close does nothing.
+type safeMathJax struct {
+	inlineStart, inlineEnd string
+	blockStart, blockEnd   string
+}
+
+// Extend 实现 goldmark.Extender
+func (e *safeMathJax) Extend(m goldmark.Markdown) {
+	m.Parser().AddOptions(parser.WithBlockParsers(
+		util.Prioritized(&safeMathBlockParser{BlockParser: mathjax.NewMathJaxBlockParser()}, 701),
+	))
+	m.Parser().AddOptions(parser.WithInlineParsers(
+		util.Prioritized(mathjax.NewInlineMathParser(), 501),
+	))
+	m.Renderer().AddOptions(renderer.WithNodeRenderers(
+		util.Prioritized(mathjax.NewMathBlockRenderer(e.blockStart, e.blockEnd), 501),
+		util.Prioritized(mathjax.NewInlineMathRenderer(e.inlineStart, e.inlineEnd), 502),
+	))
+}
+
+type safeMathBlockParser struct {
+	parser.BlockParser
+}
+
+// Close 不清除解析上下文中的状态（原因见 safeMathJax 的说明）
+func (p *safeMathBlockParser) Close(node ast.Node, reader text.Reader, pc parser.Context) {}
